@@ -18,6 +18,7 @@ import (
 	vestv2 "github.com/chain4energy/c4e-chain/x/cfevesting/migrations/v2"
 	vesttypes "github.com/chain4energy/c4e-chain/x/cfevesting/types"
 	sdk "github.com/cosmos/cosmos-sdk/types"
+	"google.golang.org/protobuf/encoding/protowire"
 	authtypes "github.com/cosmos/cosmos-sdk/x/auth/types"
 	vestingtypes "github.com/cosmos/cosmos-sdk/x/auth/vesting/types"
 	upgradetypes "github.com/cosmos/cosmos-sdk/x/upgrade/types"
@@ -141,7 +142,12 @@ func runC16(c *fw.Case) {
 			avp.VestingPools = append(avp.VestingPools, mkPool("VC round pool", "Other", gen.BigAmount(r, 12)))
 		}
 		if r.Intn(4) > 0 {
-			avp.VestingPools = append(avp.VestingPools, mkPool("extra", "Other", gen.BigAmount(r, 12)))
+			// a pool the owner created himself, now and then of the very type the upgrade renames
+			extraType := "Other"
+			if withValidatorsType && r.Intn(2) == 0 {
+				extraType = "Validators"
+			}
+			avp.VestingPools = append(avp.VestingPools, mkPool("extra", extraType, gen.BigAmount(r, 12)))
 		}
 		// the pools are listed in any order
 		r.Shuffle(len(avp.VestingPools), func(i, j int) { avp.VestingPools[i], avp.VestingPools[j] = avp.VestingPools[j], avp.VestingPools[i] })
@@ -233,7 +239,15 @@ func runC16(c *fw.Case) {
 			c.Inconclusive("marshal v2 pool: %v", err)
 			return
 		}
-		vstore.Set(append(append([]byte{}, vestv2.AccountVestingPoolsKeyPrefix...), []byte(avp.Owner)...), bz)
+		// the bytes a v1.1.0 node wrote, encoded here field by field (the legacy format is
+		// frozen; the repository's copy of its generated code is only used to cross-check)
+		hand := c16EncodeLegacyPools(avp)
+		if string(hand) == string(bz) {
+			c.Count("legacy_pool_records_cross_checked", 1)
+		} else {
+			c.Count("legacy_pool_records_differing_from_the_repository_copy", 1)
+		}
+		vstore.Set(append(append([]byte{}, vestv2.AccountVestingPoolsKeyPrefix...), []byte(avp.Owner)...), hand)
 	}
 	for _, t := range traces {
 		vstore.Delete(append([]byte(vesttypes.VestingAccountTraceKey), []byte(t.Address)...))
@@ -375,6 +389,17 @@ func runC16(c *fw.Case) {
 	for _, vt := range app.CfevestingKeeper.GetAllVestingTypes(ctx).VestingTypes {
 		typesBefore[vt.Name] = vt.String()
 	}
+	// the upgrade writes the same bytes wherever it runs: a first run on a branch of the state
+	// that is thrown away, the real one afterwards, the hard-coded owner's record compared
+	var ownerRecordOnBranch []byte
+	branchRan := false
+	if c.Index%4 == 1 {
+		bctx, _ := ctx.CacheContext()
+		if p := safeCall("ApplyUpgrade", func() { app.UpgradeKeeper.ApplyUpgrade(bctx, upgradetypes.Plan{Name: v120.UpgradeName, Height: 100}) }); p == nil {
+			branchRan = true
+			ownerRecordOnBranch = append([]byte{}, bctx.KVStore(app.GetKey(vesttypes.StoreKey)).Get(append(append([]byte{}, vesttypes.AccountVestingPoolsKeyPrefix...), []byte(v120.ValidatorsVestingPoolOwner)...))...)
+		}
+	}
 	pUp := safeCall("ApplyUpgrade", func() { app.UpgradeKeeper.ApplyUpgrade(ctx, upgradetypes.Plan{Name: v120.UpgradeName, Height: 100}) })
 	time.Local = oldLocal
 	if p := pUp; p != nil {
@@ -389,6 +414,14 @@ func runC16(c *fw.Case) {
 		c.Count("upgrades_run_with_invalid_legacy_params", 1)
 	}
 	c.Count("upgrades_run", 1)
+	if branchRan {
+		real := ctx.KVStore(app.GetKey(vesttypes.StoreKey)).Get(append(append([]byte{}, vesttypes.AccountVestingPoolsKeyPrefix...), []byte(v120.ValidatorsVestingPoolOwner)...))
+		c.Count("upgrades_run_twice_for_determinism", 1)
+		if string(real) != string(ownerRecordOnBranch) {
+			c.Violate("C16/upgrade-not-deterministic", "two runs of the v1.2.0 upgrade on the same state stored different bytes for the pools of the hard-coded owner")
+			c.Violate("C11/upgrade-not-deterministic", "two runs of the v1.2.0 upgrade on the same state stored different bytes for the pools of the hard-coded owner: replicas leave the upgrade block with different state hashes")
+		}
+	}
 	// ---- post-state ----
 	postAll := app.CfevestingKeeper.GetAllAccountVestingPools(ctx)
 	post := map[pk]*vesttypes.VestingPool{}
@@ -552,6 +585,12 @@ func runC16(c *fw.Case) {
 						c.Violate("C17/upgrade-pool-flags", "after the upgrade pool %q of the hard-coded owner is not marked as genesis pool", p.Name)
 					}
 					c.Count("upgrade_pool_flags_checked", 1)
+				default:
+					// ... and no other: a pool the owner created himself does not become a genesis
+					// pool (everything sent from it would be recorded as genesis-derived)
+					if p.GenesisPool {
+						c.Violate("C17/upgrade-pool-flags", "after the upgrade pool %q (type %s) of the hard-coded owner is marked as genesis pool", p.Name, p.VestingType)
+					}
 				}
 			}
 		}
@@ -654,4 +693,51 @@ var c16ListedGenesis = map[string]bool{
 var c16ListedFromPool = map[string]bool{
 	"c4e13e303u43k7mng4927axuhve0plgsyxc4xky63k": true, "c4e1twh6302lzcvn7lr3x0fjwfkgryn9ac5c6v2zaj": true, "c4e19je7lmu4yzrpzh7gksj3uhku4as8at6lk36qe7": true,
 	"c4e1nm50zycnm9yf33rv8n6lpks24usxzahk5usl7e": true,
+}
+
+// c16EncodeLegacyPools writes an owner's pools in the wire format of v1.1.0: address = 1,
+// vesting_pools = 3 (repeated); per pool name = 1, vesting_type = 2, lock_start = 3,
+// lock_end = 4 (timestamps: seconds = 1, nanos = 2), initially_locked = 5, withdrawn = 6,
+// sent = 7 (amounts as decimal text).
+func c16EncodeLegacyPools(avp *vesttypes.AccountVestingPools) []byte {
+	ts := func(t time.Time) []byte {
+		var b []byte
+		if s := t.Unix(); s != 0 {
+			b = protowire.AppendTag(b, 1, protowire.VarintType)
+			b = protowire.AppendVarint(b, uint64(s))
+		}
+		if ns := t.Nanosecond(); ns != 0 {
+			b = protowire.AppendTag(b, 2, protowire.VarintType)
+			b = protowire.AppendVarint(b, uint64(ns))
+		}
+		return b
+	}
+	str := func(b []byte, num protowire.Number, v string) []byte {
+		if v == "" {
+			return b
+		}
+		b = protowire.AppendTag(b, num, protowire.BytesType)
+		return protowire.AppendString(b, v)
+	}
+	byt := func(b []byte, num protowire.Number, v []byte) []byte {
+		b = protowire.AppendTag(b, num, protowire.BytesType)
+		return protowire.AppendBytes(b, v)
+	}
+	var out []byte
+	out = str(out, 1, avp.Owner)
+	for _, p := range avp.VestingPools {
+		var pb []byte
+		pb = str(pb, 1, p.Name)
+		pb = str(pb, 2, p.VestingType)
+		pb = byt(pb, 3, ts(p.LockStart))
+		pb = byt(pb, 4, ts(p.LockEnd))
+		il, _ := p.InitiallyLocked.Marshal()
+		wd, _ := p.Withdrawn.Marshal()
+		st, _ := p.Sent.Marshal()
+		pb = byt(pb, 5, il)
+		pb = byt(pb, 6, wd)
+		pb = byt(pb, 7, st)
+		out = byt(out, 3, pb)
+	}
+	return out
 }
